@@ -11,5 +11,10 @@ out=['# Independently seeded property-breaking changes','',
 for r in rows: out.append('| %s | %s | %s | %s | %s | `%s` |'%r)
 det=sum(1 for r in rows if r[4]=='DETECTED')
 out+=['','%d seeds kept, %d detected by the quick tier of the property\'s check.'%(len(rows),det)]
+ret=sorted(glob.glob('/verif/seeded/retired/*/meta.json'))
+if ret:
+    out+=['','Retired (kept for the record under `seeded/retired/`, no longer counted):','']
+    for f in ret:
+        m=json.load(open(f)); out.append('* %s — %s'%(os.path.basename(os.path.dirname(f)),m.get('retired','')))
 open('/verif/seeded/README.md','w').write('\n'.join(out)+'\n')
 print(len(rows),det)
